@@ -328,7 +328,10 @@ class DirectButler(Butler):  # numpydoc ignore=PR02
 
         Transactions can be nested.
         """
-        with self._registry.transaction(), self._datastore.transaction():
+        # Use a SAVEPOINT for nested blocks so that the registry changes of a
+        # block that fails are undone together with its datastore changes,
+        # even if the caller catches the exception and carries on.
+        with self._registry.transaction(savepoint=True), self._datastore.transaction():
             yield
 
     def _standardizeArgs(
